@@ -196,4 +196,11 @@ theorem recorded_signal_stops :
     s.spawned = 1 ∧ s.exited = some 130 := by
   decide
 
+/-- **the signals of the model are the signals of the source**: the four fatal signals and their
+numbers are exactly the variants `enum Signal` has on this platform (`Generated.signalTable` is
+regenerated from src/signal.rs on every run, so a change there breaks this theorem) -/
+theorem signals_match_source :
+    [Sig.hup, Sig.int, Sig.quit, Sig.term].map (fun g => (g.variant, g.num)) = Generated.signalTable := by
+  decide
+
 end Just.Props.C13
